@@ -27,10 +27,14 @@ import (
 //   mp_missing_way   a multipolygon has a way member that is not in the input
 //   mp_open_way      a multipolygon has a way member that is not closed
 //   (both make the documented assembly give up; the oracle tolerates "no area")
+//   reserved_point_key  a node carries an OSM tag with key "point"
+//   reserved_path_key   an open way carries an OSM tag with key "path"
+//   (the geometry decides the feature's point / path; the OSM tag of that key is don't-care)
 
 type c29Opts struct {
 	MinNodes, MaxNodes int
 	BrokenMP           float64 // probability that a multipolygon gets a missing/open way member
+	Reserved           float64 // probability that a node / an open way carries an OSM tag whose key is b6's geometry key
 }
 
 func c29DefaultOpts() c29Opts { return c29Opts{MinNodes: 5, MaxNodes: 60, BrokenMP: 0.15} }
@@ -484,6 +488,26 @@ func c29Generate(r *core.R, o c29Opts) *c29Input {
 		in.label("plain_relation")
 		if len(members) == 0 {
 			in.label("rel_empty")
+		}
+	}
+
+	// reserved keys: OSM uses path=desire and point=... as ordinary tags
+	if r.Chance(o.Reserved) {
+		if r.Bool() || len(openWays) == 0 {
+			n := &in.Nodes[r.Intn(len(in.Nodes))]
+			at := r.Intn(len(n.Tags) + 1)
+			n.Tags = append(n.Tags[:at:at], append(osm.Tags{{Key: "point", Value: core.Pick(r, c29Values)}}, n.Tags[at:]...)...)
+			in.label("reserved_point_key")
+		} else {
+			id := core.Pick(r, openWays)
+			for i := range in.Ways {
+				if in.Ways[i].ID == id {
+					w := &in.Ways[i]
+					at := r.Intn(len(w.Tags) + 1)
+					w.Tags = append(w.Tags[:at:at], append(osm.Tags{{Key: "path", Value: core.Pick(r, []string{"desire", "yes", ""})}}, w.Tags[at:]...)...)
+				}
+			}
+			in.label("reserved_path_key")
 		}
 	}
 
